@@ -9,6 +9,16 @@ TRUST = ("Trusted base: go/parser, go/types and the go/ssa builder of x/tools v0
          "Nothing is executed; a verdict is about the source as type-checked for linux/amd64, non-test files.")
 
 CLAIMS = {
+ "C04": dict(
+   technique="static analysis: wire-layout extraction from go/ssa def-use chains (encoder append chains vs decoder field stores) compared per command type",
+   text="For each of the 115 command structures the encoder's and the decoder's wire layouts are extracted from the code and compared atom by atom (same fields, order, width, byte order, nested type), the decoder's offsets are checked to be the running sum of the widths before them, every declared wire field must appear once in each direction in declaration order with the width of its type, AndX commands must consume the AndX block first, and a nested decoder must be handed a window at least as large as what it consumes. These are structural necessary conditions of the round trip that hold for every field value at once; value-level consistency of length fields and the inverse-ness of nested types are not decided here.",
+   note=TRUST + " Additional for C04: encoding/binary accessors have their documented layouts; Parameters packs bytes into words and back symmetrically (C06); only the idioms listed in DESIGN.md §3 E2 are recognised — an unrecognised idiom is reported as undecided, never passed.",
+   design="§3 E2, §4 C04"),
+ "C19": dict(
+   technique="static analysis: typed-AST table rules (enum coverage, name uniqueness, flag-family single bits, decomposer and predicate shape, deterministic order) over go/types constant values",
+   text="Every declared constant of every bound enum/flag family (about 1800 NT status rows, command and sub-command codes, flag words) is enumerated from the type-checked source: each must be a key of its name table / have a case, names must be non-empty, non-placeholder and unique, flag constants single distinct bits, each decomposer test must test one constant against itself and append that constant's name exactly once in a deterministic order, each predicate must depend on exactly its own bit, and every non-success NT status must map to a non-nil error whose text carries the numeric code. Exhaustive over table rows by construction, which is what the property quantifies over.",
+   note=TRUST + " Additional for C19: fmt/sort/strings semantics trusted; constant values are not compared with the Microsoft specifications; what name functions yield for undeclared values is only required to differ from declared names.",
+   design="§3 E3, §4 C19"),
  "C07": dict(
    technique="static analysis: linear-fact prover over go/ssa discharging the Go compiler's residual bounds checks, plus panic-source, allocation, loop-ranking and recursion rules over the call graph from the decoder entry points",
    text="Every index/slice/fixed-width-accessor site, division, assertion, make() size, loop and call cycle reachable from the rule-selected decoder entry points is an obligation decided for all inputs at once: bounds sites are discharged either by the Go compiler's prove pass or by entailment from dominating conditions, non-wrapping definitions, loop invariants and callee summaries (Fourier-Motzkin over integers). This is the right level because the property quantifies over all byte strings and a missing guard is a structural fact of the code; it is not a 'proof' claim because some helper decoders without an error path remain as recorded known findings.",
